@@ -36,6 +36,14 @@ enum OpKind {
     TakeDiscard,
     /// let an earlier token go out of scope without restoring it
     DropToken(usize),
+    /// emit a tracing event at one of two call sites through the process-wide subscriber
+    /// stack (counting layer under `GlobalEnable`, as chess-cli installs it); the result is
+    /// whether the event was delivered - the thread's view as the logging layer consumes it
+    Emit(usize),
+    /// tracing re-evaluates every call site's cached interest (it does so whenever a
+    /// subscriber is created or dropped anywhere in the process); here the calling thread
+    /// triggers it
+    Rebuild,
 }
 
 #[derive(Clone, Debug)]
@@ -65,7 +73,47 @@ fn op_name(o: OpKind) -> String {
         OpKind::TakeDiscard => "take_discard".into(),
         OpKind::DropToken(i) => format!("drop_token#{i}"),
         OpKind::IsEnabled => "is_enabled".into(),
+        OpKind::Emit(i) => format!("emit@{i}"),
+        OpKind::Rebuild => "rebuild_interest".into(),
     }
+}
+
+// ------------------------------------------------------------------ the logging stack
+
+thread_local! {
+    /// events that reached the counting layer on this thread
+    static DELIVERED: std::cell::Cell<u64> = const { std::cell::Cell::new(0) };
+}
+
+struct CountLayer;
+impl<S: tracing::Subscriber> tracing_subscriber::Layer<S> for CountLayer {
+    fn on_event(&self, _e: &tracing::Event<'_>, _c: tracing_subscriber::layer::Context<'_, S>) {
+        DELIVERED.with(|c| c.set(c.get() + 1));
+    }
+}
+
+/// one event at call site `site`; true if it was delivered
+fn emit(site: usize) -> bool {
+    let before = DELIVERED.with(|c| c.get());
+    if site == 0 {
+        tracing::info!("site 0");
+    } else {
+        tracing::warn!("site 1");
+    }
+    DELIVERED.with(|c| c.get()) != before
+}
+
+/// install the stack once per process and register both call sites, so that every run
+/// starts from the same tracing-core state whatever ran before it in this process
+fn install_logging_stack() {
+    use tracing_subscriber::layer::SubscriberExt;
+    static ONCE: std::sync::Once = std::sync::Once::new();
+    ONCE.call_once(|| {
+        let stack = tracing_subscriber::registry().with(CountLayer).with(tracing_enabled::GlobalEnable);
+        let _ = tracing::subscriber::set_global_default(stack);
+        let _ = emit(0);
+        let _ = emit(1);
+    });
 }
 
 fn thread_body(b: Arc<Baton>, tid: usize, ops: Vec<OpKind>, log: Arc<Mutex<Vec<Event>>>, clock: Arc<AtomicU64>) {
@@ -106,6 +154,8 @@ fn thread_body(b: Arc<Baton>, tid: usize, ops: Vec<OpKind>, log: Arc<Mutex<Vec<E
                     drop(tokens[i].take());
                 }
             }
+            OpKind::Emit(site) => res = Some(emit(site)),
+            OpKind::Rebuild => tracing::callsite::rebuild_interest_cache(),
         }));
         let ret = clock.fetch_add(1, Ordering::SeqCst);
         log.lock().unwrap().push(Event { tid, idx, op: *op, inv, ret, res, token, panicked: outcome.is_err() });
@@ -138,7 +188,9 @@ fn run(mut t: Tape) -> RunOut {
         let n = t.range(1, 10);
         let mut ops = Vec::new();
         for _ in 0..n {
-            let o = match t.choose(12) {
+            let o = match t.choose(15) {
+                12 | 13 => OpKind::Emit(t.choose(2) as usize),
+                14 => *t.pick(&[OpKind::Rebuild, OpKind::Emit(0)]),
                 0 | 1 | 2 => OpKind::IsEnabled,
                 3 => OpKind::Enable,
                 4 => OpKind::Disable,
@@ -164,6 +216,10 @@ fn run(mut t: Tape) -> RunOut {
     let want_initial = t.choose(2) == 1;
     std::thread::spawn(move || if want_initial { tracing_enabled::enable() } else { tracing_enabled::disable() }).join().unwrap();
     let initial = fresh_read();
+    // the call sites' cached interest as tracing computes it at this point (this thread never
+    // holds an override): each run starts from the same logging state
+    install_logging_stack();
+    tracing::callsite::rebuild_interest_cache();
 
     let b = Baton::new(nthreads, fine);
     let log = Arc::new(Mutex::new(Vec::new()));
@@ -326,11 +382,17 @@ fn thread_pass(events: &[Event], tid: usize, v: &Variant) -> Result<Vec<GOp>, St
                     tokens.remove(&e.token);
                 }
             }
-            OpKind::IsEnabled => {
+            // re-evaluating cached interests changes nobody's view
+            OpKind::Rebuild => {}
+            // an event is delivered exactly when the emitting thread's view says "enabled"
+            OpKind::IsEnabled | OpKind::Emit(_) => {
                 let got = e.res.unwrap_or(false);
                 match l {
                     L::On | L::Off => {
                         if got != (l == L::On) {
+                            if matches!(e.op, OpKind::Emit(_)) {
+                                return Err(format!("via=layer|{what}: event {} although the thread's own override is {l:?}", if got { "delivered" } else { "dropped" }));
+                            }
                             return Err(format!("{what} returned {got} although the thread's own override is {l:?}"));
                         }
                     }
@@ -401,7 +463,10 @@ fn judge(events: &[Event], nthreads: usize, initial: bool, final_read: bool) -> 
             match thread_pass(events, tid, v) {
                 Ok(mut g) => all.append(&mut g),
                 Err(e) => {
-                    failed = Some(("kind=own-override-not-honoured".into(), e));
+                    failed = Some(match e.strip_prefix("via=layer|") {
+                        Some(rest) => ("kind=own-override-not-honoured;via=layer".into(), rest.to_string()),
+                        None => ("kind=own-override-not-honoured".into(), e),
+                    });
                     break;
                 }
             }
@@ -412,7 +477,8 @@ fn judge(events: &[Event], nthreads: usize, initial: bool, final_read: bool) -> 
             if linearizable(&all, initial) {
                 return None;
             }
-            failed = Some(("kind=global-history-not-linearizable".to_string(), format!("no linearization of [{}] from initial={initial}", all.iter().map(|o| o.what.clone()).collect::<Vec<_>>().join(", "))));
+            let via = if events.iter().any(|e| matches!(e.op, OpKind::Emit(_))) { ";with-events=1" } else { "" };
+            failed = Some((format!("kind=global-history-not-linearizable{via}"), format!("no linearization of [{}] from initial={initial}", all.iter().map(|o| o.what.clone()).collect::<Vec<_>>().join(", "))));
         }
         if vi == 0 {
             first_reason = failed; // the variant that describes today's code
